@@ -137,23 +137,31 @@ def transpose (cols : List (List K)) : Nat → List (List K)
 /-- `Grid.moments(L, centers, func_vals, type_mom, return_orders=True)`.
 `tabs` holds one solid-harmonics table per centre for the pure types (ignored otherwise). -/
 def moments (ty : MomType) (L : Nat) (g : Grid K) (centres : List (List K)) (f : List K)
-    (tabs : List (List (List K))) : Except Err (List (List K) × List (List Int)) := do
-  if ¬ centres.all (fun c => c.length == g.dim) then throw .valueError
-  if f.length ≠ g.points.length then throw .valueError
-  if ty = .pureRadial ∧ L = 0 then throw .valueError
+    (tabs : List (List (List K))) : Except Err (List (List K) × List (List Int)) :=
+  if ¬ (∀ c ∈ centres, c.length = g.dim) then .error .valueError else
+  if f.length ≠ g.points.length then .error .valueError else
+  if ty = .pureRadial ∧ L = 0 then .error .valueError else
   -- generate_orders_horton_order: Cartesian needs dim ∈ {1,2,3}
-  let _ ← hortonOrders ty g.dim 0
-  let orders := allOrdersRaw ty L g.dim
-  -- convert_cart_to_sph needs 3-D points (only reached inside the loop over the centres)
-  if (ty = .pure ∨ ty = .pureRadial) ∧ g.dim ≠ 3 ∧ centres ≠ [] then throw .valueError
-  let tabs' : List (List (List K)) :=
-    if ty = .pure ∨ ty = .pureRadial then tabs else centres.map fun _ => []
-  if tabs'.length ≠ centres.length then throw .typeError
-  let cols ← (centres.zip tabs').mapM fun ct => perCentre ty orders g f ct.1 ct.2
-  let nrows := match cols with
-    | [] => 0
-    | col :: _ => col.length
-  pure (transpose cols nrows, orders)
+  match hortonOrders ty g.dim 0 with
+  | .error e => .error e
+  | .ok _ =>
+    let orders := allOrdersRaw ty L g.dim
+    -- convert_cart_to_sph needs 3-D points (only reached inside the loop over the centres)
+    if (ty = .pure ∨ ty = .pureRadial) ∧ g.dim ≠ 3 ∧ centres ≠ [] then .error .valueError else
+    let tabs' : List (List (List K)) :=
+      if ty = .pure ∨ ty = .pureRadial then tabs else centres.map fun _ => []
+    if tabs'.length ≠ centres.length then .error .typeError else
+    match (centres.zip tabs').mapM (fun ct => perCentre ty orders g f ct.1 ct.2) with
+    | .error e => .error e
+    | .ok cols =>
+      let nrows := match cols with
+        | [] => 0
+        | col :: _ => col.length
+      .ok (transpose cols nrows, orders)
+
+/-- A grid whose point array is one-dimensional (`points.ndim == 1`, every `OneDGrid`), as
+`Grid.moments` sees it: `points = self.points.reshape(-1, 1)`, hence `dim = 1`. -/
+def Grid.ofFlat (pts w : List K) : Grid K := ⟨1, pts.map fun x => [x], w⟩
 
 /-- Componentwise sum of vectors of length `dim`. -/
 def vsum (dim : Nat) (vs : List (List K)) : List K :=
@@ -163,13 +171,15 @@ def vsum (dim : Nat) (vs : List (List K)) : List K :=
 `isotopic_masses[charge]` looked up by the caller. Nuclear minus electronic first
 Cartesian moments about the centre of mass, the order-0 row dropped. -/
 def dipole (g : Grid K) (density : List K) (coords : List (List K)) (charges masses : List K) :
-    Except Err (List K) := do
+    Except Err (List K) :=
   let msum := sumK masses
   let centre := (vsum g.dim (List.zipWith (fun r m => r.map (· * m)) coords masses)).map (· / msum)
-  let (integrals, orders) ← moments .cartesian 1 g [centre] density []
-  let nuclear := orders.map fun e =>
-    sumK (List.zipWith (fun r z => monomial (vsub r centre) e * z) coords charges)
-  pure ((List.zipWith (· - ·) nuclear integrals.flatten).drop 1)
+  match moments .cartesian 1 g [centre] density [] with
+  | .error e => .error e
+  | .ok (integrals, orders) =>
+    let nuclear := orders.map fun e =>
+      sumK (List.zipWith (fun r z => monomial (vsub r centre) e * z) coords charges)
+    .ok ((List.zipWith (· - ·) nuclear integrals.flatten).drop 1)
 
 end numeric
 
